@@ -123,7 +123,11 @@ type RichTarget struct {
 
 // NamedReq / NamedTgt are entries of the request / target map.
 type NamedReq struct {
-	Name string  `json:"name"`
+	Name string `json:"name"`
+	// Nil: the map value is a nil *gnmi.SubscribeRequest. Validate asks only
+	// for the key, so the configuration is valid, targets may refer to the
+	// name and handlers receive Request == nil. Body is dormant while Nil.
+	Nil  bool    `json:"nil,omitempty"`
 	Body ReqSpec `json:"body"`
 }
 type NamedTgt struct {
@@ -183,7 +187,7 @@ func (t *RichTarget) clone() RichTarget {
 func (c *RichConfig) clone() *RichConfig {
 	n := &RichConfig{Rev: c.Rev, Instance: c.Instance, Meta: cpKVs(c.Meta)}
 	for i := range c.Requests {
-		n.Requests = append(n.Requests, NamedReq{c.Requests[i].Name, c.Requests[i].Body.clone()})
+		n.Requests = append(n.Requests, NamedReq{c.Requests[i].Name, c.Requests[i].Nil, c.Requests[i].Body.clone()})
 	}
 	for i := range c.Targets {
 		n.Targets = append(n.Targets, NamedTgt{c.Targets[i].Name, c.Targets[i].Nil, c.Targets[i].T.clone()})
@@ -268,6 +272,50 @@ func canonReq(r *ReqSpec) string {
 	return mustJSON(n)
 }
 
+// canonNamedReq: a request listed with a nil message is its own content,
+// different from every message (also from the empty one; the edits never turn
+// one into the other under the same name, see "r-nil").
+func canonNamedReq(r *NamedReq) string {
+	if r.Nil {
+		return "nil"
+	}
+	return canonReq(&r.Body)
+}
+
+// emptyBody reports whether the body denotes the empty message.
+func emptyBody(r *ReqSpec) bool { return canonReq(r) == canonReq(&ReqSpec{Kind: 2}) }
+
+// nilRequestTargets returns the names of the targets that refer to a request
+// listed with a nil message.
+func (c *RichConfig) nilRequestTargets() map[string]bool {
+	nilReq := map[string]bool{}
+	for i := range c.Requests {
+		if c.Requests[i].Nil {
+			nilReq[c.Requests[i].Name] = true
+		}
+	}
+	out := map[string]bool{}
+	if len(nilReq) == 0 {
+		return out
+	}
+	for i := range c.Targets {
+		if !c.Targets[i].Nil && nilReq[c.Targets[i].T.Req] {
+			out[c.Targets[i].Name] = true
+		}
+	}
+	return out
+}
+
+// renil makes the requests that spec lists with a nil message nil in msg
+// again: parsing and copying turn a nil map value into an empty message.
+func renil(spec *RichConfig, msg *pb.Configuration) {
+	for i := range spec.Requests {
+		if spec.Requests[i].Nil && msg != nil && msg.Request != nil {
+			msg.Request[spec.Requests[i].Name] = nil
+		}
+	}
+}
+
 // canonTgt is equal for two target settings iff they denote the same message.
 func canonTgt(t *NamedTgt) string {
 	if t.Nil {
@@ -291,7 +339,7 @@ func snapshot(c *RichConfig) *snap {
 		return s
 	}
 	for i := range c.Requests {
-		s.req[c.Requests[i].Name] = canonReq(&c.Requests[i].Body)
+		s.req[c.Requests[i].Name] = canonNamedReq(&c.Requests[i])
 	}
 	for i := range c.Targets {
 		s.tgt[c.Targets[i].Name] = canonTgt(&c.Targets[i])
@@ -533,6 +581,10 @@ func (o *bopt) config(c *RichConfig) *pb.Configuration {
 		cfg.Request = map[string]*gpb.SubscribeRequest{}
 	}
 	for _, i := range o.order(len(c.Requests)) {
+		if c.Requests[i].Nil {
+			cfg.Request[c.Requests[i].Name] = nil
+			continue
+		}
 		cfg.Request[c.Requests[i].Name] = o.req(&c.Requests[i].Body)
 	}
 	if len(c.Targets) > 0 || o.emptyish {
@@ -636,6 +688,9 @@ func buildForm(spec *RichConfig, ns *snap, form, perm int, fc *formCtx) (msg *pb
 			}
 		}
 	}
+	if err == nil {
+		renil(spec, msg)
+	}
 	return msg, name, err
 }
 
@@ -686,7 +741,7 @@ var (
 		"r-list-mode", "r-encoding", "r-updates-only", "r-allow-agg", "r-qos",
 		"r-prefix-target", "r-prefix-origin", "r-model-add", "r-ext", "r-kind",
 	}
-	editsRequestSet = []string{"r-rename", "r-add-unused", "r-del-unused", "r-edit-unused"}
+	editsRequestSet = []string{"r-rename", "r-add-unused", "r-del-unused", "r-edit-unused", "r-nil", "r-add-nil"}
 	editsConfig     = []string{"c-instance", "c-meta-add", "c-meta-val"}
 	// many entries at once (every A-th request / target)
 	editsBulk    = []string{"bulk-req-edit", "bulk-tgt-edit", "bulk-tgt-del", "bulk-tgt-add"}
@@ -862,8 +917,21 @@ func applyRich(c *RichConfig, e REdit) string {
 	if needR {
 		ri = mod(e.R, len(c.Requests))
 		r = &c.Requests[ri].Body
+		if c.Requests[ri].Nil {
+			switch e.Kind {
+			case "r-rename", "r-add-unused", "r-del-unused", "r-edit-unused", "r-nil", "r-add-nil":
+			default:
+				// an edit of the body of a request listed without a message:
+				// it gets its (non-empty) message back
+				c.Requests[ri].Nil = false
+				if emptyBody(r) {
+					r.Kind, r.Subs = 0, []SubSpec{keyedSub(e.S)}
+				}
+				return "r-unnil"
+			}
+		}
 		switch e.Kind {
-		case "r-rename", "r-add-unused", "r-del-unused", "r-edit-unused", "r-kind", "r-ext":
+		case "r-rename", "r-add-unused", "r-del-unused", "r-edit-unused", "r-kind", "r-ext", "r-nil", "r-add-nil":
 		default:
 			if mod(r.Kind, 3) != 0 {
 				// a body edit of a poll / empty request: make it a subscription
@@ -1162,7 +1230,18 @@ func applyRich(c *RichConfig, e REdit) string {
 				b := &c.Requests[i].Body
 				b.Kind = 0
 				b.Subs = append(b.Subs, keyedSub(e.S))
+				c.Requests[i].Nil = false
 			}
+		case "r-nil":
+			// The message of the request becomes nil. (Not for a request whose
+			// message is empty: whether empty -> nil is a change is arguable.)
+			if c.Requests[ri].Nil || emptyBody(r) {
+				kind = "r-add-nil"
+				continue
+			}
+			c.Requests[ri].Nil = true
+		case "r-add-nil":
+			c.Requests = append(c.Requests, NamedReq{Name: c.freshRequest(e.S), Nil: true, Body: ReqSpec{Subs: []SubSpec{keyedSub(e.S)}}})
 		// the configuration ---------------------------------------------------
 		case "c-instance":
 			c.Instance += "i"
@@ -1316,6 +1395,12 @@ type rstats struct {
 	bodyEditWithRepointOrRemove              bool
 	unusualName, nearNames, emptyRequestName bool
 	withBase                                 bool
+	// requests listed with a nil message
+	nilReqUsed, nilReqUnused, nilReqUsedNow bool // (Now: in the current configuration)
+	identicalNilUsed                        int  // accepted identical reloads while a target uses a nil request
+	nilForms                                map[string]bool
+	addUsesNil, updUsesNil, delUsedNil      bool
+	nilCallAmongOthers                      bool
 	// modelDisagreement: the plain-data notion of "unchanged" and proto.Equal
 	// on the reference messages disagreed (a flaw of this harness, never seen);
 	// the case is not judged from there on.
@@ -1373,6 +1458,14 @@ func (s *rstats) labels() []string {
 	add(s.nearNames, "names-equal-after-folding-or-trimming")
 	add(s.emptyRequestName, "request-named-empty-string")
 	add(s.withBase, "with-base")
+	add(s.nilReqUsed, "nil-request-used-by-a-target")
+	add(s.nilReqUnused, "nil-request-unused")
+	add(s.identicalNilUsed >= 5, "5+-identical-reloads-with-used-nil-request")
+	add(len(s.nilForms) >= 6, "used-nil-request-reloaded-in-6+-representations")
+	add(s.addUsesNil, "added-target-uses-nil-request")
+	add(s.updUsesNil, "updated-target-uses-nil-request")
+	add(s.delUsedNil, "deleted-target-used-nil-request")
+	add(s.nilCallAmongOthers, "call-with-nil-request-and-calls-for-other-targets-in-one-load")
 	add(s.modelDisagreement != "", "excluded:model-disagreement")
 	return l
 }
@@ -1425,6 +1518,7 @@ func (st *rstats) measure(c *RichConfig) {
 		folded[f] = true
 	}
 	st.multiKeyUsedRequests = 0
+	st.nilReqUsedNow = false
 	for i := range c.Requests {
 		r := &c.Requests[i]
 		if r.Name == "" {
@@ -1432,6 +1526,15 @@ func (st *rstats) measure(c *RichConfig) {
 		}
 		if !plainName(r.Name) {
 			st.unusualName = true
+		}
+		if r.Nil {
+			if used[r.Name] {
+				st.nilReqUsedNow = true
+				st.nilReqUsed = true
+			} else {
+				st.nilReqUnused = true
+			}
+			continue
 		}
 		if mod(r.Body.Kind, 3) != 0 {
 			continue
@@ -1487,7 +1590,7 @@ func runRich(sc *RichScenario) (st rstats, err error) {
 			err = vio("panic", "panic: %v", r)
 		}
 	}()
-	st.forms, st.edits = map[string]bool{}, map[string]bool{}
+	st.forms, st.edits, st.nilForms = map[string]bool{}, map[string]bool{}, map[string]bool{}
 	if sc.Init == nil {
 		return st, vio("bad-scenario", "bad scenario: no initial configuration")
 	}
@@ -1610,7 +1713,11 @@ func runRich(sc *RichScenario) (st rstats, err error) {
 
 		desc := fmt.Sprintf("step %d load %d (representation %q, edits %v, revision %d -> %d)", p.step, p.rep, form, p.edits, fc.prevRev, spec.Rev)
 		if (gerr == nil) != want {
-			return vio("gate", "%s: Load returned %v; expected accepted=%v (valid=%v %v, revision strictly greater or no current configuration=%v); loaded %s", desc, gerr, want, valid, reasons, revOK, describeRich(spec))
+			var ran string
+			if gerr != nil && len(got) > 0 {
+				ran = fmt.Sprintf("; the load that returned this error had already run handlers %s", shortCalls(gotS))
+			}
+			return vio("gate", "%s: Load returned %v; expected accepted=%v (valid=%v %v, revision strictly greater or no current configuration=%v)%s; loaded %s", desc, gerr, want, valid, reasons, revOK, ran, describeRich(spec))
 		}
 		if !want {
 			st.rejected++
@@ -1667,7 +1774,30 @@ func runRich(sc *RichScenario) (st rstats, err error) {
 		}
 		// (An identical reload without calls leaves both sides of this comparison as they were.)
 		if changed || len(got) > 0 {
-			if d := diffViews(replayed, view(after)); d != "" {
+			nilNew := spec.nilRequestTargets()
+			if len(nilNew) > 0 || st.nilReqUsedNow {
+				nilOld, withNil := map[string]bool{}, 0
+				if cur != nil {
+					nilOld = cur.nilRequestTargets()
+				}
+				for _, c := range got {
+					switch {
+					case c.kind == "add" && nilNew[c.name]:
+						st.addUsesNil = true
+						withNil++
+					case c.kind == "update" && nilNew[c.name]:
+						st.updUsesNil = true
+						withNil++
+					case c.kind == "delete" && nilOld[c.name]:
+						st.delUsedNil = true
+						withNil++
+					}
+				}
+				if withNil > 0 && len(got) > 1 {
+					st.nilCallAmongOthers = true
+				}
+			}
+			if d := diffViews(replayed, view(after), nilNew); d != "" {
 				return vio("replay-mismatch", "%s: replaying the handler calls %s does not yield Current(): %s", desc, shortCalls(gotS), d)
 			}
 		}
@@ -1677,6 +1807,10 @@ func runRich(sc *RichScenario) (st rstats, err error) {
 			st.identical++
 			if st.multiKeyUsedRequests > 0 {
 				st.identicalMultiKey++
+			}
+			if st.nilReqUsedNow {
+				st.identicalNilUsed++
+				st.nilForms[form] = true
 			}
 		}
 		if changed && cur != nil {
